@@ -162,6 +162,48 @@ pub fn oracle_scan(buf: &[u8]) -> Result<(), (String, String)> {
             format!("iterator frames={:?} consumed={}; reference frames={:?} consumed={}", frames, it.consumed(), rframes, rtotal),
         ));
     }
+    // the other Iterator entry points (nth / skip / step_by / count / last are built on next(); an override must agree)
+    {
+        let n = rframes.len();
+        for k in 0..=(n.min(4)) {
+            let mut it2 = MsgFrameIter::new(buf);
+            let got = (&mut it2).nth(k).map(|m| frame_range(buf, &m));
+            let want = rframes.get(k).copied();
+            if got != want {
+                return Err(("c05:iterator-nth".into(), format!("nth({}) returned {:?}, the reference frame list gives {:?}", k, got, want)));
+            }
+            // after nth(k) the iterator continues with frame k+1
+            let rest: Vec<(usize, usize)> = (&mut it2).map(|m| frame_range(buf, &m)).collect();
+            let want_rest: Vec<(usize, usize)> = rframes.iter().skip(k + 1).copied().collect();
+            if rest != want_rest {
+                return Err(("c05:iterator-nth".into(), format!("after nth({}) the iterator yields {:?}, expected {:?}", k, rest, want_rest)));
+            }
+        }
+        let mut it3 = MsgFrameIter::new(buf);
+        let skipped: Vec<(usize, usize)> = (&mut it3).skip(1).map(|m| frame_range(buf, &m)).collect();
+        if skipped != rframes.iter().skip(1).copied().collect::<Vec<_>>() {
+            return Err(("c05:iterator-skip".into(), format!("skip(1) yields {:?}, reference {:?}", skipped, &rframes[1.min(n)..])));
+        }
+        let mut it4 = MsgFrameIter::new(buf);
+        let stepped: Vec<(usize, usize)> = (&mut it4).step_by(2).map(|m| frame_range(buf, &m)).collect();
+        if stepped != rframes.iter().step_by(2).copied().collect::<Vec<_>>() {
+            return Err(("c05:iterator-step_by".into(), format!("step_by(2) yields {:?}", stepped)));
+        }
+        let mut it5 = MsgFrameIter::new(buf);
+        if (&mut it5).count() != n {
+            return Err(("c05:iterator-count".into(), format!("count() differs from the {} reference frames", n)));
+        }
+        let mut it6 = MsgFrameIter::new(buf);
+        let last = (&mut it6).last().map(|m| frame_range(buf, &m));
+        if last != rframes.last().copied() {
+            return Err(("c05:iterator-last".into(), format!("last() returned {:?}", last)));
+        }
+        let mut it7 = MsgFrameIter::new(buf);
+        let (lo, hi) = (&mut it7).size_hint();
+        if lo > n || hi.map(|h| h < n).unwrap_or(false) {
+            return Err(("c05:iterator-size_hint".into(), format!("size_hint() = ({}, {:?}) excludes the actual number of frames {}", lo, hi, n)));
+        }
+    }
     // further calls after the end keep returning None and do not move backwards
     let before = it.consumed();
     for _ in 0..3 {
@@ -173,6 +215,26 @@ pub fn oracle_scan(buf: &[u8]) -> Result<(), (String, String)> {
         return Err(("c05:iterator-consumed-exceeds-len".into(), format!("iterator consumed {} > {}", it.consumed(), buf.len())));
     }
     Ok(())
+}
+
+/// what a caller sees of a delivered frame: its bytes followed by its message number and a digest of the decoded message
+/// (a frame delivered from a longer buffer must not be interpreted differently from the same frame delivered from a shorter one)
+fn frame_record(m: &MessageFrame) -> Vec<u8> {
+    let mut v = m.frame_data().to_vec();
+    v.extend_from_slice(&[0xFE, 0xED]);
+    match m.message_number() {
+        Some(n) => v.extend_from_slice(&[1, (n >> 8) as u8, n as u8]),
+        None => v.extend_from_slice(&[0, 0, 0]),
+    }
+    v.extend_from_slice(&crate::infra::hash_str(&format!("{:?}", m.get_message())).to_le_bytes());
+    v
+}
+fn ref_record(frame: &[u8]) -> Vec<u8> {
+    // the same record computed from the frame alone (its own L+6 bytes)
+    match MessageFrame::new(frame) {
+        Ok(m) => frame_record(&m),
+        Err(_) => frame.to_vec(),
+    }
 }
 
 /// caller model of C06: feed chunks, drop consumed bytes, append new data
@@ -195,7 +257,7 @@ pub fn feed_chunks(stream: &[u8], cuts: &[usize]) -> Result<(Vec<Vec<u8>>, usize
             }
             let had = f.is_some();
             if let Some(m) = f {
-                delivered.push(m.frame_data().to_vec());
+                delivered.push(frame_record(&m));
             }
             total += c;
             buf.drain(..c);
@@ -228,7 +290,7 @@ pub fn feed_chunks_iter(stream: &[u8], cuts: &[usize]) -> Result<(Vec<Vec<u8>>, 
             let mut it = MsgFrameIter::new(&buf);
             let mut guard = 0usize;
             for m in &mut it {
-                delivered.push(m.frame_data().to_vec());
+                delivered.push(frame_record(&m));
                 guard += 1;
                 if guard > buf.len() + 1 {
                     return Err(("c06:iterator-runs-on".into(), "iterator keeps yielding frames".into()));
@@ -269,7 +331,7 @@ pub fn oracle_chunks(stream: &[u8], cuts: &[usize]) -> Result<(), (String, Strin
         ));
     }
     let (rf, rt) = ref_scan_all(stream);
-    let rbytes: Vec<Vec<u8>> = rf.iter().map(|(a, b)| stream[*a..*b].to_vec()).collect();
+    let rbytes: Vec<Vec<u8>> = rf.iter().map(|(a, b)| ref_record(&stream[*a..*b])).collect();
     if rbytes != d2 || rt != t2 {
         return Err((
             "c06:chunked-differs-from-model".into(),
@@ -315,13 +377,13 @@ pub fn run(ctx: &Ctx, replay: Option<&J>, chunked: bool) -> CheckResult {
         "proptest-generated buffers of up to 6 segments {valid frame (payload 0..=1023, random reserved bits), garbage, lone 0xD3, \
          header announcing a long body, frame with one flipped bit, truncated frame, frame nested in the payload of a valid/invalid outer \
          candidate, D3-rich bytes}, plus an enumeration of all 65536 (reserved bits, length) header patterns as valid frames inside buffers longer than a maximum-length frame, and streams of 66-200 KB (total lengths around 2^16 and 2^17); oracle: next_msg_frame == reference scanner (consumed, presence, exact byte range), consumed<=len, every \
-         skipped 0xD3 is a complete wrong-CRC candidate, MsgFrameIter yields the reference frame list/consumed total and terminates. \
+         skipped 0xD3 is a complete wrong-CRC candidate, MsgFrameIter yields the reference frame list/consumed total and terminates, and nth/skip/step_by/count/last/size_hint agree with it; frames whose checksum is a special value (0x000000, 0xFFFFFF, 0xD30000, ...) are included. \
          non-trivial = >=2 segment kinds and a 0xD3 before the delivered frame or an incomplete candidate; distinct = hash of the buffer"
             .to_string()
     } else {
         "C05 streams x chunk schedules {one-byte chunks, random cut positions incl. duplicates (empty chunks), cuts forced at \
          preamble/length/payload/checksum offsets of 0xD3 candidates}, plus streams of 66-150 KB fed in small chunks, in 64 KiB chunks and at once; oracle (model-based history): two caller loops (append chunk; either call next_msg_frame until \
-         no frame or run a MsgFrameIter and use consumed(); drop the consumed bytes) gives the same delivered frames and total consumed as one-shot scanning and as the reference model. \
+         no frame or run a MsgFrameIter and use consumed(); drop the consumed bytes) gives the same delivered frames (bytes, message number, decoded message) and total consumed as one-shot scanning and as the reference model. \
          non-trivial = >=1 cut strictly inside a frame that is delivered; distinct = hash of (stream, cuts)"
             .to_string()
     };
@@ -442,6 +504,44 @@ pub fn run(ctx: &Ctx, replay: Option<&J>, chunked: bool) -> CheckResult {
             }
         }
         ev.class_n("enumerated/all-65536-header-patterns-in-long-buffers", 65536);
+        // frames whose checksum has a special value (0x000000, 0xFFFFFF, 0xD30000, ...), alone, after garbage and in a row
+        {
+            let mut rng = ctx.rng("c05-special-crc", 0);
+            for (k, target) in crate::pool::SPECIAL_CRCS.iter().enumerate() {
+                for l in [3usize, 4, 17, 100, 1023] {
+                    let f = crate::pool::frame_with_crc(&mut rng, l, if k % 2 == 0 { 0 } else { 33 }, *target);
+                    let other = crate::pool::random_frame(&mut rng, 12, false);
+                    for variant in 0..3 {
+                        let mut buf: Vec<u8> = Vec::new();
+                        match variant {
+                            0 => buf.extend_from_slice(&f),
+                            1 => {
+                                buf.extend_from_slice(&[0x11, 0xD3, 0x22]);
+                                buf.extend_from_slice(&f);
+                                buf.extend_from_slice(&other);
+                            }
+                            _ => {
+                                buf.extend_from_slice(&other);
+                                buf.extend_from_slice(&f);
+                                buf.extend_from_slice(&f);
+                            }
+                        }
+                        ev.evaluations += 1;
+                        match oracle_scan(&buf) {
+                            Ok(()) => {
+                                ev.distinct_by_construction += 1;
+                                ev.class("frames-with-special-checksum-values");
+                            }
+                            Err((sig, msg)) => {
+                                if !vs.iter().any(|y: &Violation| y.signature == sig) {
+                                    vs.push(Violation { property: "C05".into(), signature: sig, message: format!("frame with checksum {:06x}: {}", target, msg), case: json!({"kind":"stream","bytes":hex(&buf),"segments":["special-crc"]}) });
+                                }
+                            }
+                        }
+                    }
+                }
+            }
+        }
         // long streams: more than 64 KiB / 128 KiB of back-to-back frames with some garbage in between
         let longs: Vec<(Evidence, Vec<Violation>)> = (0..ctx.n(12, 200) as usize)
             .into_par_iter()
